@@ -1,7 +1,7 @@
 PROP = dict(
     id="C13",
     lean_modules=["TongoProofs.C13"],
-    gen=["PoolSeqno"],
+    gen=["PoolConsts"],
     # for these ops the Lean driver evaluates the SPECIFICATION (specSelect, proved equal to the model of the repaired
     # updateBest in C13.select_spec): a mismatch is a violation with the line as failing input
     spec_ops=("select.",),
@@ -23,7 +23,7 @@ PROP = dict(
     trusted_base=[
         "hand models lean/TongoModel/PoolSelect.lean and PoolSM.lean of liteapi/pool/conn_pool.go and connection.go; "
         "tie: exhaustive selection grid against the proved specification, scripted wait scenarios against the "
-        "transition system, on every run",
+        "transition system, translator PoolConsts (comparisons/constants/structure -> obligations), on every run",
         "hook liteapi/pool/export_verif.go (build tag verif): pool members are real *connection values (real mutex, "
         "real SetMasterHead/MasterHead, real update channel) whose IsOK/AverageRoundTrip/Client are injected",
         "Go semantics assumed by PoolSM: sync.RWMutex (Lock needs no reader and no writer; the only modelled reader "
@@ -34,26 +34,34 @@ PROP = dict(
         "whenever the thread is parked in its select); real timers and the Go scheduler are outside the model, so "
         "'returns an error once its timeout has elapsed' is proved as 'err only after the timer/ctx action' plus "
         "deadlock freedom, not as a bound in seconds",
-        "updateBest is abstracted in PoolSM to 'lock, read every head, store ANY member or keep the choice, unlock'; "
-        "the selection rule is proved separately on a consistent snapshot of the members (select_spec) - the two "
-        "passes of the real updateBest may see different heads if a connection advances in between",
+        "there is no instant at which all heads are read together: 'the newest head known to the pool' means the "
+        "newest head the refresh has read (select_spec_concurrent); the original two-read updateBest violated even "
+        "that (select_two_pass_witness, fixed in the repo)",
+        "wait_success_spec assumes weak fairness of Run and STRONG fairness of the waiter's receive (Go hands a sent "
+        "value directly to a receiver blocked in select; the model's channel is a buffer Run may refill) and that "
+        "neither timer nor ctx of that waiter fires",
         "read-only critical sections of the pool lock without blocking operations (bestConnection, "
         "ConnectionsNumber) are not separate threads of the model",
-        "'reports a head' = a SetMasterHead publication processed while the connection is the best one; a switch to "
-        "a connection that is already ahead notifies nobody until its next head (behaviour of the code, modelled as "
-        "is)",
+        "'reports a head' = a SetMasterHead publication processed while the connection is the best one, or the head "
+        "the new best connection already has at a switch (the original code notified nobody on a switch: found in "
+        "round 2, fixed in the repo)",
     ],
     partial=[
         "select_spec_orig_partial: the selection rule for the code as ORIGINALLY written holds only under "
         "seqno < 2^32-1 (select_wrap_witness: negation at 2^32-1, replayed on Go, fixed in the repo)",
-        "no_deadlock is a safety statement (some thread can always move unless all are parked/finished); liveness "
-        "under a fair scheduler ('every blocked thread eventually runs') is not stated",
+        "liveness is split in two theorems: wait_success_spec (the result becomes ok) and wait_returns (the deferred "
+        "unsubscribe gets the pool lock: weak fairness of Run and of subscribing waiters, strong fairness of the "
+        "waiter's own lock acquisition); no example of a fair infinite execution is constructed (the hypotheses are "
+        "the usual fairness assumptions, satisfiable by round-robin scheduling)",
+        "wait_success_spec starts when notifySubscribers/switchTo iterates with the head (or the head is in the "
+        "channel); the step before (Run receives the update and takes the read lock while the connection is still "
+        "the best one) is covered by no_deadlock + subscribe_atomic, not by a separate leads-to theorem",
         "eventually_notified: a head >= target offered to a waiter is in its channel or about to be put there; that "
         "the waiter's select then picks the channel rather than a simultaneously ready timer/ctx is Go's choice "
         "(either outcome is allowed by the model)",
-        "wait scenarios compared with the model are quiescent between steps; non-quiescent interleavings are "
-        "exercised on the real code only by the go.wait.adv.* oracles (no hang, sound outcomes), not compared "
-        "step by step with the model",
+        "non-quiescent schedules compared step by step with the model are those realisable with the gates (Run held "
+        "inside notifySubscribers with at most one thread queued on the write lock; waiters held at the entry of "
+        "their select); arbitrary unsettled interleavings are exercised by go.wait.adv.random on the real code only",
     ],
     level="proof",
     level_text="Selection: theorem for ALL configurations (any number of members, any heads/rtts): the repaired "
@@ -62,11 +70,16 @@ PROP = dict(
                "when there is none (select_spec); the original uint32 test violates it at seqno 2^32-1 "
                "(select_wrap_witness, decide). Wait protocol: theorems over a transition system with ANY number of "
                "waiters, SetMasterHead callers and connections and ALL interleavings, by inductive invariants: "
-               "no_deadlock, wait_outcomes, eventually_notified, subscribe_short_circuit for the repaired code; the "
+               "no_deadlock, wait_outcomes, eventually_notified, subscribe_short_circuit, subscribe_atomic, "
+               "publish_not_dropped, select_spec_concurrent (the refresh modelled read by read against moving heads) "
+               "and the liveness theorem wait_success_spec (fair executions) for the repaired code; the "
                "original code deadlocks (two decide-checked counterexample traces, both replayed on the real "
                "goroutines and repaired in the repo). Tie checked on every run: the full 17.2 M-point selection "
-               "grid through the real updateBest against the proved specification, scripted wait scenarios on the "
-               "real goroutines against the transition system, direct Go oracles for the rule and for hangs.",
+               "grid through the real updateBest against the proved specification, scripted wait scenarios (quiescent "
+               "and gate-forced non-quiescent ones) on the real goroutines against the transition system step by "
+               "step, refreshes with heads moved between the reads, direct Go oracles for the rule and for hangs, "
+               "and a go/ast translator (PoolConsts) whose obligations tie the comparisons, constants and "
+               "lock/channel structure of the source to the model.",
     level_note="trusted: Lean kernel, the hand-written PoolSM/PoolSelect models (tied by the checks above), the Go "
                "runtime semantics of RWMutex/channels/select assumed by PoolSM, the hook file; timers and the "
                "scheduler are environment actions",
